@@ -619,6 +619,7 @@ fn explore(ctx: &Ctx) {
                     ctx.nontrivial(&("e2e", n, keys));
                 } else if n >= 2 {
                     ctx.count("e2e_cases_with_an_empty_partition", 1);
+                    ctx.count(&format!("e2e_partitions_hit.n{n:02}.keys{keys}"), parts_hit as u64);
                 }
                 if n == 7 && keys == 2 {
                     ctx.sample(json!({"part": "E2e", "n": n, "keys": keys, "rows": rows, "partitions_hit": parts_hit}));
